@@ -1,4 +1,328 @@
-import Kap.Basic
+/-
+Driver for C01: reads the cases produced by the Go harness (which ran the REAL AlertNode through a real TaskMaster),
+replays every case on the model (Kap.Model.C01) and on the history spec (Kap.Spec.C01) and judges
+  * the spec on the OBSERVED events / forwarded data (the property itself; checked first), and
+  * observed = model (the tie between model and code).
+-/
+import Kap.Spec.C01
+open Kap Kap.C01
 
-/-- Driver for property C01 (replaced by the property's driver). -/
-def main : IO Unit := Kap.driverMain (fun _ _ => .badop "driver not implemented")
+namespace Kap.C01.Drv
+
+/-! ### parsing -/
+
+def kvOf (toks : List String) (key : String) : Option String :=
+  toks.findSome? (fun t => match t.splitOn "=" with
+    | [k, v] => if k == key then some v else none
+    | _ => none)
+
+def hexU64? (s : String) : Option UInt64 :=
+  if s.length != 16 then none else
+  s.toList.foldlM (fun (acc : UInt64) ch => (hexVal ch).map (fun d => acc * 16 + UInt64.ofNat d)) 0
+
+def bit (s : String) (i : Nat) : Bool := (s.toList.getD i '0') == '1'
+
+def sym? (ch : Char) : Option (Option Bool) :=
+  if ch == '1' then some (some true) else if ch == '0' then some (some false)
+  else if ch == 'm' || ch == 'x' then some none else none
+
+def parseVec (t : Int) (vec : String) : Option Pt :=
+  match vec.toList.mapM sym? with
+  | some [i, w, c, ri, rw, rc] => some { t := t, i := i, w := w, c := c, ri := ri, rw := rw, rc := rc }
+  | _ => none
+
+/-- the documented example (pipeline/alert.go:100-127): thresholds on "value" -/
+def docPt (t : Int) (v : Int) : Pt :=
+  { t := t, i := some (v > 60), ri := some (v < 50), w := some (v > 70), rw := some (v < 60),
+    c := some (v > 80), rc := some (v < 70) }
+
+def parseBatchPts (tok : String) : Option (List Pt) :=
+  if tok == "-" then some [] else
+  (tok.splitOn ",").mapM (fun s => match s.splitOn ":" with
+    | [t, vec] => do parseVec (← t.toInt?) vec
+    | _ => none)
+
+structure Conf where
+  form : String := "s"
+  cfg : Cfg := {}
+  low : Float := 0.25
+  high : Float := 0.5
+  hist : Option Int := none
+
+def parseCfg (toks : List String) : Option Conf := do
+  let get (k : String) (d : String) : String := (kvOf toks k).getD d
+  let form := get "form" "s"
+  let lv := get "lv" "111"
+  let rs := get "rs" "000"
+  let scodur ← (get "scodur" "0").toInt?
+  let hist ← (get "hist" "-1").toInt?
+  let lo ← hexU64? (get "lo" "3fd0000000000000")
+  let hi ← hexU64? (get "hi" "3fe0000000000000")
+  let histO : Option Int := if hist < 0 then none else some hist
+  let doc := form == "doc"
+  let c : Cfg := {
+    info := doc || bit lv 0, warn := doc || bit lv 1, crit := doc || bit lv 2,
+    infoReset := doc || bit rs 0, warnReset := doc || bit rs 1, critReset := doc || bit rs 2,
+    sco := get "sco" "0" == "1", scoDur := scodur * 1000,   -- the harness writes microseconds (`<n>u`)
+    noRec := get "norec" "0" == "1", all := get "all" "0" == "1", useFlap := get "flap" "0" == "1",
+    history := effHistory histO }
+  pure { form := form, cfg := c, low := Float.ofBits lo, high := Float.ofBits hi, hist := histO }
+
+/-! ### per-ID state of model and spec -/
+
+structure GState where
+  gid : String
+  st : St                    -- model
+  tr : Track := {}           -- spec
+  levels : List Nat := []    -- spec: levels so far, newest first
+  flapping : Bool := false   -- spec: flapping flag
+
+structure Out where
+  id : String
+  ev : Ev
+  tmax : Int := 0            -- batch form: time and size of the batch the event belongs to
+  npts : Nat := 0
+
+structure DS where
+  conf : Conf := {}
+  groups : List GState := []
+  modelOut : Array Out := #[]
+  specOut : Array Out := #[]
+  quiet : Nat := 0           -- points / batches without an event (model)
+  branches : List String := []
+  sawInput : Bool := false
+
+def addBr (d : DS) (b : String) : DS := if d.branches.contains b then d else { d with branches := b :: d.branches }
+def addBrIf (d : DS) (cond : Bool) (b : String) : DS := if cond then addBr d b else d
+
+def alertID (gid : String) : String := "m:host=" ++ gid
+
+def DS.group (d : DS) (gid : String) : GState :=
+  match d.groups.find? (fun g => g.gid == gid) with
+  | some g => g
+  | none => { gid := gid, st := newAlertState d.conf.cfg }
+
+def DS.setGroup (d : DS) (g : GState) : DS :=
+  if d.groups.any (fun x => x.gid == g.gid) then
+    { d with groups := d.groups.map (fun x => if x.gid == g.gid then g else x) }
+  else { d with groups := d.groups ++ [g] }
+
+/-! ### branch bookkeeping (which structural cases of the model a case went through) -/
+
+def noteLevel (d : DS) (c : Cfg) (p : Pt) (cur : Nat) : DS := Id.run do
+  let mut d := d
+  let up := findFirstMatchLevel c p (cur - 1) critical
+  let errAt (l : Nat) : Bool := levelExpr c l && (p.lv l).isNone
+  d := addBrIf d (errAt 1 || errAt 2 || errAt 3) "lvl-eval-error"
+  match up with
+  | some l => d := addBr d (if l == cur then "dl-up-same" else "dl-up-higher")
+  | none =>
+    if !resetExpr c cur then d := addBr d (if cur == 0 then "dl-cur-ok" else "dl-no-reset")
+    else if (p.rs cur).isNone then d := addBr d "dl-reset-error-falls-through"
+    else if p.rs cur == some false then d := addBr d "dl-reset-holds"
+    else d := addBr d "dl-reset-passes"
+    if !(resetExpr c cur && p.rs cur == some false) then
+      match findFirstMatchLevel c p 0 cur with
+      | some _ => d := addBr d "dl-down-found"
+      | none => d := addBr d "dl-down-ok"
+  return d
+
+def noteAdd (d : DS) (c : Cfg) (s s' : St) (t : Int) (l : Nat) : DS := Id.run do
+  let mut d := d
+  d := addBr d s!"tr-{currentLevel s}{l}"
+  d := addBrIf d (s'.idx == 0) "ring-wrap"
+  d := addBrIf d (c.scoDur != 0 && !s'.changed && s.lastTriggered.isNone) "exp-zero-time"
+  if c.scoDur != 0 && !s'.changed then
+    let el := subTime t s.lastTriggered
+    d := addBrIf d (el == c.scoDur) "exp-eq"
+    d := addBrIf d (el == c.scoDur - 1) "exp-minus1"
+    d := addBrIf d (el == c.scoDur + 1) "exp-plus1"
+    d := addBrIf d (el < 0) "exp-negative"
+  d := addBrIf d (c.useFlap && s'.flapping && !s.flapping) "flap-on"
+  d := addBrIf d (c.useFlap && !s'.flapping && s.flapping) "flap-off"
+  return d
+
+def noteTrig (d : DS) (s : St) : DS :=
+  let p := if s.idx = 0 then s.history.length - 1 else s.idx - 1
+  let d := addBrIf d (s.idx == 0) "trig-p-wraps"
+  addBr d (if s.history.getD p 0 == 0 then "trig-first-set" else "trig-first-keep")
+
+/-! ### one op on model and spec -/
+
+def flapFn (conf : Conf) (k : FlapConsts) : FlapFn := goFlap k conf.low conf.high
+
+def specFlag (conf : Conf) (k : FlapConsts) (g : GState) (cur : Nat) : Bool × List Nat :=
+  let levels := cur :: g.levels
+  if conf.cfg.useFlap then (specFlap k conf.low conf.high conf.cfg.history g.flapping levels, levels.take conf.cfg.history)
+  else (false, levels.take conf.cfg.history)
+
+def doPoint (d : DS) (k : FlapConsts) (gid : String) (p : Pt) : DS := Id.run do
+  let c := d.conf.cfg
+  let g := d.group gid
+  let mut d := { d with sawInput := true }
+  -- model
+  let l := determineLevel c p (currentLevel g.st)
+  d := noteLevel d c p (currentLevel g.st)
+  let sAdd := addEvent c (flapFn d.conf k) g.st p.t l
+  d := noteAdd d c g.st sAdd p.t l
+  let (st', e) := pointStep c (flapFn d.conf k) g.st p
+  let gd := guards c sAdd l
+  if Gen.pointSuppress gd then
+    d := addBr d (if c.useFlap && sAdd.flapping then "pt-suppressed-flapping" else "pt-suppressed-sco")
+  else if Gen.pointSend gd then
+    d := noteTrig d sAdd
+    d := addBrIf d (l == 0) "pt-recovery"
+    d := addBrIf d (l != 0 && !sAdd.changed && c.sco) "pt-expired-resend"
+    d := addBrIf d (Gen.pointWithhold gd) "pt-recovery-withheld"
+  else d := addBr d "pt-ok-quiet"
+  match e with
+  | some ev => d := { d with modelOut := d.modelOut.push { id := alertID gid, ev := ev } }
+  | none => d := { d with quiet := d.quiet + 1 }
+  -- spec
+  let cur := specLevel c p g.tr.level
+  let (fl, levels) := specFlag d.conf k g cur
+  let (tr', se) := specPoint c g.tr p fl
+  match se with
+  | some ev => d := { d with specOut := d.specOut.push { id := alertID gid, ev := ev } }
+  | none => pure ()
+  return d.setGroup { g with st := st', tr := tr', levels := levels, flapping := fl }
+
+def doBatch (d : DS) (k : FlapConsts) (gid : String) (b : Batch) : DS := Id.run do
+  let c := d.conf.cfg
+  let g := d.group gid
+  let mut d := { d with sawInput := true }
+  let (st', e) := batchStep c (flapFn d.conf k) g.st b
+  if b.pts.isEmpty then d := addBr d "b-empty"
+  else
+    let cur := currentLevel g.st
+    for p in b.pts do d := noteLevel d c p cur
+    let sc := b.pts.foldl (scanStep c cur) {}
+    let lvls := b.pts.map (fun p => determineLevel c p cur)
+    let l := if Gen.batchUseHighest { all := c.all } then sc.highest else sc.lowest
+    d := addBrIf d c.all "b-all"
+    d := addBrIf d (c.all && sc.lowest != sc.highest) "b-all-mixed"
+    d := addBrIf d ((lvls.filter (· == sc.highest)).length ≥ 2 && b.pts.length ≥ 2 && sc.highest != 0) "b-highest-tie"
+    d := addBrIf d (match sc.highestPoint, b.pts.head? with | some hp, some p0 => hp != p0 | _, _ => false) "b-highest-not-first"
+    d := addBr d (if Gen.batchUseBatchTime { all := c.all, l := l } then "b-time-batch" else "b-time-point")
+    let t := match sc.highestPoint with
+      | some hp => if Gen.batchUseBatchTime { all := c.all, l := l } then b.tmax else hp.t
+      | none => b.tmax
+    let sAdd := addEvent c (flapFn d.conf k) g.st t l
+    d := noteAdd d c g.st sAdd t l
+    let gd := guards c sAdd l
+    if Gen.batchSilent gd then
+      d := addBr d (if l == 0 then "b-ok-quiet" else if c.useFlap && sAdd.flapping then "b-suppressed-flapping" else "b-suppressed-sco")
+    else
+      d := noteTrig d sAdd
+      d := addBrIf d (l == 0) "b-recovery"
+      d := addBrIf d (l == 0 && c.useFlap && sAdd.flapping) "b-recovery-while-flapping"
+      d := addBrIf d (l != 0 && !sAdd.changed && c.sco) "b-expired-resend"
+      d := addBrIf d (Gen.batchWithhold gd) "b-recovery-withheld"
+  match e with
+  | some ev => d := { d with modelOut := d.modelOut.push { id := alertID gid, ev := ev, tmax := b.tmax, npts := b.pts.length } }
+  | none => d := { d with quiet := d.quiet + 1 }
+  -- spec
+  if b.pts.isEmpty then return d.setGroup { g with st := st' }
+  let cur := batchLevel c g.tr.level b.pts
+  let (fl, levels) := specFlag d.conf k g cur
+  let (tr', se) := specBatch c g.tr b fl
+  match se with
+  | some ev => d := { d with specOut := d.specOut.push { id := alertID gid, ev := ev, tmax := b.tmax, npts := b.pts.length } }
+  | none => pure ()
+  return d.setGroup { g with st := st', tr := tr', levels := levels, flapping := fl }
+
+/-! ### comparing with what the implementation did -/
+
+def renderEv (o : Out) : String := s!"{esc o.id}:{o.ev.level}:{o.ev.time}:{o.ev.dur}"
+def renderFwd (batch : Bool) (o : Out) : String :=
+  if batch then s!"{esc o.id}:{o.ev.level}:{o.tmax}:{o.ev.dur}:{o.npts}" else renderEv o
+
+def parseList (obs : List String) : Option (List String) :=
+  match obs with
+  | ["-"] => some []
+  | [l] => some (l.splitOn ",")
+  | _ => none
+
+/-- Split a rendered event `id:L:t:dur[:n]` from the right (the escaped id may contain ':'). -/
+def fieldsR (s : String) (nTail : Nat) : String × List String :=
+  let parts := s.splitOn ":"
+  let k := parts.length - nTail
+  (":".intercalate (parts.take k), parts.drop k)
+
+/-- Which clause of the property the first difference between expected and observed belongs to. -/
+def classify (nTail : Nat) (expected observed : List String) : String × String :=
+  let rec go (i : Nat) : List String → List String → String × String
+    | [], [] => ("none", "")
+    | e :: _, [] => ("emission", s!"event #{i} missing: expected {e}")
+    | [], o :: _ => ("emission", s!"unexpected event #{i}: {o}")
+    | e :: es, o :: os =>
+      if e == o then go (i + 1) es os else
+      match fieldsR e nTail, fieldsR o nTail with
+      | (ei, el :: et :: ed :: erest), (oi, ol :: ot :: od :: orest) =>
+        if ei != oi || et != ot then ("emission", s!"event #{i}: expected {e} observed {o}")
+        else if el != ol then ("level", s!"event #{i}: expected {e} observed {o}")
+        else if ed != od then ("duration", s!"event #{i}: expected {e} observed {o}")
+        else if erest != orest then ("batch-size", s!"event #{i}: expected {e} observed {o}")
+        else ("emission", s!"event #{i}: expected {e} observed {o}")
+      | _, _ => ("emission", s!"event #{i}: expected {e} observed {o}")
+  go 0 expected observed
+
+def judge (_id : String) (lines : Array String) : Verdict := Id.run do
+  let some k := flapConsts? | return .badop "flapping constants were not extracted from alert.go (Kap.Gen.C01)"
+  if effHistory none < 2 then return .badop "history default / clamp were not extracted (Kap.Gen.C01)"
+  let mut d : DS := {}
+  for l in lines do
+    let (opT, obs) := splitObs (tokens l)
+    match opT with
+    | "cfg" :: rest =>
+      if d.sawInput then return .badop "cfg after input"
+      let some conf := parseCfg rest | return .badop l
+      d := { d with conf := conf }
+      d := addBr d (match conf.hist with
+        | none => "hist-default"
+        | some h => if h < 2 then "hist-clamped" else s!"hist-{h}")
+      d := addBr d s!"form-{conf.form}"
+    | ["p", gid, t, vec] =>
+      let some gid := unesc gid | return .badop l
+      let some t := t.toInt? | return .badop l
+      let some p := parseVec t vec | return .badop l
+      d := doPoint d k gid p
+    | ["v", gid, t, v] =>
+      let some gid := unesc gid | return .badop l
+      let some t := t.toInt? | return .badop l
+      let some v := v.toInt? | return .badop l
+      d := doPoint d k gid (docPt t v)
+    | ["b", gid, tmax, pts] =>
+      let some gid := unesc gid | return .badop l
+      let some tmax := tmax.toInt? | return .badop l
+      let some pts := parseBatchPts pts | return .badop l
+      d := doBatch d k gid { tmax := tmax, pts := pts }
+    | ["events"] =>
+      let some observed := parseList obs | return .badop l
+      let sp := d.specOut.toList.map renderEv
+      let md := d.modelOut.toList.map renderEv
+      if observed != sp then
+        let (clause, detail) := classify 3 sp observed
+        return .specfail clause s!"events: {detail} (model {if observed == md then "agrees with" else "differs from"} the implementation)"
+      if observed != md then
+        let (_, detail) := classify 3 md observed
+        return .mismatch s!"events: model vs implementation: {detail}"
+    | ["fwd"] =>
+      let some observed := parseList obs | return .badop l
+      let batch := d.conf.form == "b"
+      let sp := d.specOut.toList.map (renderFwd batch)
+      let md := d.modelOut.toList.map (renderFwd batch)
+      let nTail := if batch then 4 else 3
+      if observed != sp then
+        let (clause, detail) := classify nTail sp observed
+        return .specfail s!"forwarded-{clause}" s!"forwarded data: {detail} (model {if observed == md then "agrees with" else "differs from"} the implementation)"
+      if observed != md then
+        let (_, detail) := classify nTail md observed
+        return .mismatch s!"forwarded data: model vs implementation: {detail}"
+    | _ => return .badop l
+  let nt := d.modelOut.size ≥ 2 && d.quiet ≥ 1
+  return .ok nt d.branches.reverse
+
+end Kap.C01.Drv
+
+def main : IO Unit := Kap.driverMain Kap.C01.Drv.judge
